@@ -380,7 +380,7 @@ func ruleSerReset(c *Ctx) {
 		for _, loc := range []string{"off", "tagsOff", "rawValues", "rawTags"} {
 			found := false
 			for o, v := range env.vars {
-				if o.Name() == loc {
+				if varRoleName(o) == loc {
 					found = true
 					if !(v.IsConst() && v.K == 0) && !bad[loc] {
 						bad[loc] = true
